@@ -792,6 +792,7 @@ func runC20(c *Ctx) {
 	}
 	checkStatusIsFailureWhereDataIsExpected(c, "Z6")
 	checkUnknownIDEndsSession(c, "Z7")
+	checkWorkerCountBounded(c, "Z8")
 }
 
 // clientAxioms adds: data returned by clientConn.sendPacket with a nil error, and result.data of a
@@ -1072,4 +1073,130 @@ func checkStatusIsFailureWhereDataIsExpected(c *Ctx, rule string) {
 		})
 	}
 	c.check(n >= 8, rule, "data requests that can be refused with a STATUS", "?", fmt.Sprintf("%d sites", n), fmt.Sprintf("only %d sites found", n))
+}
+
+// checkWorkerCountBounded (C20.Z8): the number of workers of a concurrent transfer sizes channels, pools and the
+// wait group.  In WriteTo it is computed from the size the *server* reported, so it must be proved to lie in
+// 1..maxConcurrentRequests where it is used — a count that wrapped in a narrowing conversion makes make(chan) panic
+// or starts no worker at all (the transfer then never returns).  The prover is given, as verified axioms, that the
+// client options maxConcurrentRequests and maxPacket are at least 1 (every store is a positive constant or follows a
+// `n < 1` refusal; decided here too).
+func checkWorkerCountBounded(c *Ctx, rule string) {
+	p := c.P
+	// ---- the option invariant ----
+	optOK := true
+	nStores := 0
+	for _, fn := range p.LibFuncs() {
+		eachInstr(fn, func(in ssa.Instruction) {
+			st, ok := in.(*ssa.Store)
+			if !ok {
+				return
+			}
+			t, name, _, ok := fieldOf(st.Addr)
+			if !ok || typeName(t) != "Client" || (name != "maxConcurrentRequests" && name != "maxPacket") {
+				return
+			}
+			nStores++
+			if k, ok := constInt(st.Val); ok {
+				if k < 1 {
+					optOK = false
+				}
+				return
+			}
+			// guarded: some dominating If compares the stored value with a constant >= 1 and refuses below it
+			guarded := false
+			for cv, truth := range edgeConds(st.Block(), nil) {
+				b, ok := cv.(*ssa.BinOp)
+				if !ok {
+					continue
+				}
+				k, isK := constInt(b.Y)
+				if !isK || !(stripConv(b.X) == stripConv(st.Val) || sameValue(b.X, st.Val)) {
+					continue
+				}
+				if (b.Op == token.LSS && !truth && k >= 1) || (b.Op == token.LEQ && !truth && k >= 0) || (b.Op == token.GEQ && truth && k >= 1) || (b.Op == token.GTR && truth && k >= 0) {
+					guarded = true
+				}
+			}
+			if !guarded {
+				optOK = false
+			}
+		})
+	}
+	c.check(optOK && nStores >= 3, rule, "client options maxPacket and maxConcurrentRequests are at least 1", "client.go", fmt.Sprintf("%d stores, each a positive constant or refused below 1", nStores), "a client option can set maxPacket or maxConcurrentRequests below 1: the worker-count computations divide by it / saturate to it")
+	if !optOK {
+		return
+	}
+	// ---- the worker counts ----
+	w := newZWorld(p)
+	n := 0
+	for _, name := range []string{"(*File).readAt", "(*File).WriteTo", "(*File).writeAtConcurrent", "(*File).readFromWithConcurrency"} {
+		fn := p.Func(name)
+		if fn == nil {
+			c.missing(rule, name)
+			continue
+		}
+		z := w.get(fn)
+		z.clientAxioms()
+		// axioms: every load of the two option fields is >= 1; remember one load of maxConcurrentRequests
+		var maxTerm *lin
+		eachInstr(fn, func(in ssa.Instruction) {
+			u, ok := in.(*ssa.UnOp)
+			if !ok || u.Op != token.MUL {
+				return
+			}
+			t, fname, _, ok := fieldOf(u.X)
+			if !ok || typeName(t) != "Client" || (fname != "maxConcurrentRequests" && fname != "maxPacket") {
+				return
+			}
+			tm := z.term(u)
+			z.addFact(leq(linConst(1), tm, 0), u)
+			if fname == "maxConcurrentRequests" && maxTerm == nil {
+				maxTerm = &tm
+			}
+		})
+		if maxTerm == nil {
+			c.und(rule, name+" worker count", p.Pos(fn.Pos()), "maxConcurrentRequests is not read here")
+			continue
+		}
+		ord := 0
+		eachInstr(fn, func(in ssa.Instruction) {
+			call, ok := in.(*ssa.Call)
+			if !ok {
+				return
+			}
+			var arg ssa.Value
+			switch {
+			case calleeName(&call.Call) == "newResChanPool" || calleeName(&call.Call) == "newBufPool":
+				arg = call.Call.Args[0]
+			case isWGCall(&call.Call, "Add"):
+				arg = call.Call.Args[len(call.Call.Args)-1]
+				if k, ok := constInt(arg); ok && k == 1 {
+					return
+				}
+			default:
+				return
+			}
+			n++
+			ord++
+			key := fmt.Sprintf("%s: worker count at %s #%d", name, calleeName(&call.Call), ord)
+			// a count converted from a wider or unsigned computation is bounded *before* the conversion:
+			// 1 <= x <= maxConcurrentRequests there implies that the conversion keeps the value
+			if cv, ok := arg.(*ssa.Convert); ok {
+				arg = cv.X
+			}
+			at := z.term(arg)
+			goals := []lin{leq(linConst(1), at, 0), leq(at, *maxTerm, 0)}
+			ok2, failed := z.prove(in, goals)
+			if !ok2 && os.Getenv("ZDEBUG") != "" && strings.Contains(key, os.Getenv("ZDEBUG")) {
+				fmt.Printf("ZDEBUG %s goal %s\n", key, failed)
+				for _, f := range z.factsAt(in) {
+					fmt.Printf("    %s\n", f)
+				}
+			}
+			c.check(ok2, rule, key, p.Pos(in.Pos()), "1 <= count <= maxConcurrentRequests",
+				"the worker count used here is not provably within 1..maxConcurrentRequests (unproved: "+failed+"): a size reported by the server can make it wrap — make(chan) panics with a huge value, and with zero workers the transfer never returns")
+		})
+	}
+	c.check(n >= 8, rule, "worker-count uses", "?", fmt.Sprintf("%d uses", n), fmt.Sprintf("only %d uses found", n))
 }
